@@ -37,14 +37,14 @@ Definition c08_out (d : list rdesc) : list Z :=
 (* ------------------------------------------------------------------ C15 *)
 Definition zb (z : Z) : bool := negb (z =? 0).
 
-(* setting code of a group's own record: 0 no SECTION_DIVIDER_SETTING block (nested block only),
-   1 block without blend mode, 2 block with PASS_THROUGH, 3 block with another blend mode *)
+(* block code: 0 absent, 1 present without blend mode, 2 present with PASS_THROUGH, 3 present with another blend mode.
+   A group's own record is described by  st = code(SECTION_DIVIDER_SETTING) + 4 * code(NESTED_SECTION_DIVIDER_SETTING) *)
 Definition setting_of (z : Z) : option (option bool) :=
   if z =? 0 then None else if z =? 1 then Some None else if z =? 2 then Some (Some true) else Some (Some false).
 
-Definition L (i c rp : Z) : ctree := Leaf (mkA i (zb c) (pt_of false None (zb rp))).
+Definition L (i c rp : Z) : ctree := Leaf (mkA i (zb c) (pt_of false None None (zb rp))).
 Definition N (i c st rp : Z) (ch : list ctree) : ctree :=
-  Node (mkA i (zb c) (pt_of true (setting_of st) (zb rp))) ch.
+  Node (mkA i (zb c) (pt_of true (setting_of (st / 4)) (setting_of (st mod 4)) (zb rp))) ch.
 
 Definition mode_of (z : Z) : compat := if z =? 1 then Sai else if z =? 2 then Csp else Photoshop.
 
